@@ -24,6 +24,7 @@ type obligation struct {
 	pos          string     // file:line for humans (never part of the name)
 	goPost       string     // contract expression to re-check natively in a replay
 	goPostParams []string   // names its free identifiers use for the parameters, by position
+	nAsserts int // number of assertions generated before this obligation: later ones must not be used
 }
 
 type showTerm struct {
@@ -161,6 +162,7 @@ func (g *gen) oblige(o obligation) {
 		o.name = fmt.Sprintf("%s#%d", o.name, n)
 	}
 	o.fn = fnKeyQ(g.top)
+	o.nAsserts = len(g.asserts)
 	g.obls = append(g.obls, o)
 }
 
